@@ -748,7 +748,7 @@ Proof.
     { pose proof (SD _ Hin) as X. cbn [snd] in X. destruct De; [eauto | discriminate]. }
     destruct DeS as [D ->].
     assert (ND : nth j ds vnone = D).
-    { apply N. rewrite nth_error_map, Ej. reflexivity. }
+    { apply N. exact (map_nth_error (fun e : entry => snd e) j f Ej). }
     assert (HD : In D ds) by (rewrite <- ND; apply nth_In; lia).
     destruct (WD D HD) as [vals [-> WA]].
     exists vals. split; [|reflexivity]. unfold uni_fields.
@@ -768,7 +768,151 @@ Proof.
     apply map_res_ok. intros g Hg. apply uni_fld_construct; auto.
     + rewrite forallb_forall in Wc. now apply Wc.
     + unfold no_dealt in NDl. destruct (pk_repaired chain); [reflexivity|]. cbn [orb] in *.
-      pose proof (SC _ In0) as X. rewrite Ef in NDl. rewrite <- Ef in NDl at 1.
-      destruct e0 as [[d0 c0] D0]. cbn [snd] in E0. subst D0. cbn [fst snd] in X. subst c0.
+      pose proof (SC _ In0) as X. subst f. destruct e0 as [[d0 c0] D0]. cbn [snd] in E0. subst D0. cbn [fst snd] in X. subst c0.
       rewrite forallb_forall in NDl. specialize (NDl g Hg). destruct g; [exact NDl | reflexivity].
 Qed.
+
+(* ---------------------------------------------------------------------------------------------- *)
+(* the whole run, every configuration                                                              *)
+(* ---------------------------------------------------------------------------------------------- *)
+Lemma shape3_repaired_fld : forall g hw E, shape3_free_fld GDefaultAndDefaults hw E g = true.
+Proof.
+  induction g as [|n opt cn cfs nd IH] using fld_ind'; intros hw E; [reflexivity|].
+  cbn [shape3_free_fld]. destruct (match E with Some D => some_inst (attr D n) | None => some_inst (default_value cn cfs nd) end); [|reflexivity].
+  cbn [guard_repaired]. rewrite !orb_true_r. cbn [andb]. apply forallb_forall. intros g Hg.
+  rewrite Forall_forall in IH. now apply IH.
+Qed.
+
+Lemma shape3_repaired f : shape3_free GDefaultAndDefaults f = true.
+Proof.
+  unfold shape3_free. apply forallb_forall. intros [[d c] i] _. apply forallb_forall. intros g _. apply shape3_repaired_fld.
+Qed.
+
+Lemma uniform_scope_inv ma e0 e1 r :
+  uniform_scope ma (e0 :: e1 :: r) = true ->
+  (forall e : entry, In e (e0 :: e1 :: r) -> snd (fst e) = snd (fst e0))
+  /\ (forall e : entry, In e (e0 :: e1 :: r) -> is_some (snd e) = is_some (snd e0))
+  /\ has_optional (snd (snd (fst e0))) = false.
+Proof.
+  destruct e0 as [[d0 c0] i0]. cbn [uniform_scope fst snd]. intros U.
+  repeat (apply andb_true_iff in U as [U ?]).
+  rewrite forallb_forall in U, H2. repeat split.
+  - intros e [<-|He]; [reflexivity|]. apply dcls_beq_eq. now apply U.
+  - intros e [<-|He]; [reflexivity|]. apply Bool.eqb_prop. now apply H2.
+  - cbn [List.length Nat.leb orb] in H0. now apply negb_true_iff in H0.
+Qed.
+
+Theorem empty_defaults_partial c f :
+  wf_forest f = true -> api_ok c f = true -> side_ok_gen c f = true ->
+  meets_C01 f (sp_parse_empty_gen c f).
+Proof.
+  intros W A S. unfold sp_parse_empty_gen, sp_parse_empty. rewrite A. cbn [negb].
+  change parse_is_parser_gen with true. change deepest_first_gen with true. cbn [negb andb].
+  assert (P : (match p_api c with AParse => false | AParser => false end) = false) by (destruct (p_api c); reflexivity).
+  rewrite P. clear P.
+  unfold side_ok_gen, side_ok in S. destruct (p_mode c) as [m|].
+  - destruct (resolve_gen (option_strings (p_cfg c)) m (forest_fws f)) as [fs|e] eqn:R.
+    + cbn [meets_C01]. exact (parse_plain_meets guard_gen factory_cached_gen f W S).
+    + unfold resolve_gen in R. apply errors_are_CRE in R. subst e. exact I.
+  - apply andb_true_iff in S as [S S3]. apply andb_true_iff in S as [U NDl]. rewrite U.
+    destruct f as [|e0 [|e1 r]].
+    + discriminate.
+    + cbn [meets_C01]. exact (parse_plain_meets guard_gen factory_cached_gen [e0] W S3).
+    + destruct (uniform_scope_inv _ _ _ _ U) as [SC [SD NO]].
+      destruct e0 as [[d0 c0] i0]. cbn [fst snd] in *.
+      pose proof (parse_uniform_meets pk_chain_gen c0 (d0, c0, i0) e1 r pk_chain_known W SC SD NO NDl) as X.
+      cbn zeta in X. change (parse_uniform default_sources_gen pk_chain_gen c0 ((d0, c0, i0) :: e1 :: r))
+        with (parse_uniform order_std pk_chain_gen c0 ((d0, c0, i0) :: e1 :: r)).
+      rewrite X. reflexivity.
+Qed.
+
+(* once the guard of _create_dataclass_instance also looks at wrapper.defaults (#3 repaired), NONE / EXPLICIT / AUTO need no side
+   condition at all *)
+Theorem plain_full_if_guard_repaired :
+  guard_gen = GDefaultAndDefaults ->
+  forall c f m, p_mode c = MPlain m -> wf_forest f = true -> api_ok c f = true -> meets_C01 f (sp_parse_empty_gen c f).
+Proof.
+  intros G c f m M W A. apply empty_defaults_partial; auto.
+  unfold side_ok_gen, side_ok. rewrite M, G. apply shape3_repaired.
+Qed.
+
+(* ---------------------------------------------------------------------------------------------- *)
+(* the full-strength statement is false of the code as it is: witnesses                            *)
+(* ---------------------------------------------------------------------------------------------- *)
+Definition cfg_auto : pcfg := mkp (MPlain CRAuto) (mkcfg DUnderscore GFlat NDefault) AParser.
+Definition cfg_merge : pcfg := mkp MMerge (mkcfg DUnderscore GFlat NDefault) AParser.
+Definition cfg_parse : pcfg := mkp (MPlain CRAuto) (mkcfg DUnderscore GFlat NWithoutRoot) AParse.
+
+Definition cls_Leaf : dcls := ("Leaf", [FLeaf "x" TInt (VInt 0) false; FLeaf "s" TStr (VStr "") false]).
+(* #3   o: Optional[Leaf] = field(default_factory=Leaf) *)
+Definition cls_T3 : dcls := ("T3", [FLeaf "y" TInt (VInt 5) false; FNest "o" true "Leaf" (snd cls_Leaf) DFac]).
+Definition forest_3 : forest := [("d0", cls_T3, None)].
+(* #4   xs: List[int] = [1, 2] at two destinations *)
+Definition cls_M4 : dcls := ("M4", [FLeaf "xs" (TList TInt) (VList [VInt 1; VInt 2]) true]).
+Definition forest_4 : forest := [("d0", cls_M4, None); ("d1", cls_M4, None)].
+(* #19  a default instance on one of two merged destinations *)
+Definition cls_In : dcls := ("In", [FLeaf "z" TInt (VInt 1) false]).
+Definition cls_M19 : dcls := ("M19", [FLeaf "y" TInt (VInt 5) false; FNest "inner" false "In" (snd cls_In) DFac]).
+Definition inst_M19 : vt := VD "M19" [("y", VL (VInt 9)); ("inner", VD "In" [("z", VL (VInt 4))])].
+Definition forest_19 : forest := [("d0", cls_M19, Some inst_M19); ("d1", cls_M19, None)].
+(* #20  a class that is nested twice and registered at top level *)
+Definition cls_T20 : dcls := ("T20", [FNest "a" false "In" (snd cls_In) DFac; FNest "b" false "In" (snd cls_In) DFac]).
+Definition forest_20 : forest := [("d0", cls_T20, None); ("d1", cls_In, None)].
+(* an Optional member that is None by default comes back as an instance when its class is merged *)
+Definition cls_T21 : dcls := ("T21", [FLeaf "y" TInt (VInt 5) false; FNest "o" true "In" (snd cls_In) DNone]).
+Definition forest_21 : forest := [("d0", cls_T21, None); ("d1", cls_T21, None)].
+
+Lemma witness_3 : wf_forest forest_3 = true /\ api_ok cfg_auto forest_3 = true
+  /\ sp_parse_empty_gen cfg_auto forest_3 = Ok [("d0", VD "T3" [("y", VL (VInt 5)); ("o", VL VNone)])]
+  /\ sp_parse_empty_gen cfg_parse forest_3 = Ok [("d0", VD "T3" [("y", VL (VInt 5)); ("o", VL VNone)])]
+  /\ ~ meets_C01 forest_3 (sp_parse_empty_gen cfg_auto forest_3).
+Proof. vm_compute. repeat split; try reflexivity. intros H. discriminate H. Qed.
+
+Lemma witness_4 : wf_forest forest_4 = true /\ api_ok cfg_merge forest_4 = true
+  /\ sp_parse_empty_gen cfg_merge forest_4
+     = Ok [("d0", VD "M4" [("xs", VL (VInt 1))]); ("d1", VD "M4" [("xs", VL (VInt 2))])]
+  /\ parse_merge_gen (option_strings (p_cfg cfg_merge)) forest_4 = sp_parse_empty_gen cfg_merge forest_4
+  /\ ~ meets_C01 forest_4 (sp_parse_empty_gen cfg_merge forest_4).
+Proof. vm_compute. repeat split; try reflexivity. intros H. discriminate H. Qed.
+
+Lemma witness_19 : wf_forest forest_19 = true /\ api_ok cfg_merge forest_19 = true
+  /\ sp_parse_empty_gen cfg_merge forest_19
+     = Ok [("d0", inst_M19); ("d1", VD "M19" [("y", VL (VInt 9)); ("inner", VD "In" [("z", VL (VInt 1))])])]
+  /\ ~ meets_C01 forest_19 (sp_parse_empty_gen cfg_merge forest_19).
+Proof. vm_compute. repeat split; try reflexivity. intros H. discriminate H. Qed.
+
+Lemma witness_20 : wf_forest forest_20 = true /\ api_ok cfg_merge forest_20 = true
+  /\ sp_parse_empty_gen cfg_merge forest_20 = Err (Raise "ValueError")
+  /\ ~ meets_C01 forest_20 (sp_parse_empty_gen cfg_merge forest_20).
+Proof. vm_compute. repeat split; try reflexivity. intros H. exact H. Qed.
+
+Lemma witness_21 : wf_forest forest_21 = true /\ api_ok cfg_merge forest_21 = true
+  /\ sp_parse_empty_gen cfg_merge forest_21
+     = Ok [("d0", VD "T21" [("y", VL (VInt 5)); ("o", VD "In" [("z", VL (VInt 1))])]);
+           ("d1", VD "T21" [("y", VL (VInt 5)); ("o", VD "In" [("z", VL (VInt 1))])])]
+  /\ ~ meets_C01 forest_21 (sp_parse_empty_gen cfg_merge forest_21).
+Proof. vm_compute. repeat split; try reflexivity. intros H. discriminate H. Qed.
+
+Definition full_statement : Prop :=
+  forall c f, wf_forest f = true -> api_ok c f = true -> meets_C01 f (sp_parse_empty_gen c f).
+
+(* refuted by #19, a finding that stays after #3 and #4 are repaired *)
+Theorem empty_defaults_refuted : ~ full_statement.
+Proof.
+  intros F. destruct witness_19 as [W [A [_ N]]]. exact (N (F cfg_merge forest_19 W A)).
+Qed.
+Theorem refuted_by_optional_member_default :
+  exists c f, wf_forest f = true /\ api_ok c f = true /\ p_mode c = MPlain CRAuto /\ ~ meets_C01 f (sp_parse_empty_gen c f).
+Proof. exists cfg_auto, forest_3. destruct witness_3 as [W [A [_ [_ N]]]]. auto. Qed.
+Theorem refuted_by_dealt_list_default :
+  exists c f, wf_forest f = true /\ api_ok c f = true /\ ~ meets_C01 f (sp_parse_empty_gen c f).
+Proof. exists cfg_merge, forest_4. destruct witness_4 as [W [A [_ [_ N]]]]. auto. Qed.
+Theorem refuted_by_partial_default_instances :
+  exists c f, wf_forest f = true /\ api_ok c f = true /\ ~ meets_C01 f (sp_parse_empty_gen c f).
+Proof. exists cfg_merge, forest_19. destruct witness_19 as [W [A [_ N]]]. auto. Qed.
+Theorem refuted_by_merge_at_different_depths :
+  exists c f, wf_forest f = true /\ api_ok c f = true /\ sp_parse_empty_gen c f = Err (Raise "ValueError").
+Proof. exists cfg_merge, forest_20. destruct witness_20 as [W [A [E _]]]. auto. Qed.
+Theorem refuted_by_merged_optional_member :
+  exists c f, wf_forest f = true /\ api_ok c f = true /\ ~ meets_C01 f (sp_parse_empty_gen c f).
+Proof. exists cfg_merge, forest_21. destruct witness_21 as [W [A [_ N]]]. auto. Qed.
